@@ -18,7 +18,7 @@ RULE = (
 )
 REQUIRED = ["regeneration_checked", "regenerated", "variants/identity", "variants/renumber", "variants/rewrite",
             "kind/its", "kind/rc", "dir/fwd", "dir/bwd", "strategy/all", "strategy/comp", "strategy/bt", "mode/explicit",
-            "mode/implicit", "multi_candidate_runs", "bt_must_fall_back"]
+            "mode/implicit", "multi_candidate_runs", "bt_must_fall_back", "rule_object_template_checked"]
 ASSUMPTIONS = [
     "precondition (decided from the input): balanced, fully mapped, hydrogens written consistently (explicit or implicit mode; 'mixed' excluded)",
     "centre templates are only required to regenerate centre-complete reactions (every atom whose label changes is an end atom of a changed bond)",
@@ -112,6 +112,21 @@ def attempt(ctx, x, rsmi, vkind, kind, d, s):
         ctx.count("multi_candidate_runs")
     if tgt in out["std"]:
         ctx.count("regenerated")
+        # the same template handed over as a SynRule object (the reactor's own rule container) must regenerate it too
+        if s == "all" and vkind == "identity":
+            try:
+                from synkit.Rule.syn_rule import SynRule
+                # built the way the reactor itself wraps a graph template for these flags
+                rule_obj = SynRule(tpl, implicit_h=False) if RC.flags_for(x["mode"]).get("implicit_temp") else SynRule(tpl)
+                alt = RC.run(sub, rule_obj, invert=(d == "bwd"), strategy=s, flags=RC.flags_for(x["mode"]))
+            except Exception as e:
+                alt = {"error": f"{type(e).__name__}: {e}"}
+            if not alt.get("timeout"):
+                ctx.count("rule_object_template_checked")
+                if "error" in alt or tgt not in alt["std"]:
+                    ctx.violation("not-regenerated-with-rule-object", {**wit, "container": "SynRule"},
+                                  f"own template ({kind}, {d}) regenerates the reaction when passed as a graph but not when passed as a SynRule object: "
+                                  f"{alt.get('error') or str(len(alt['std'])) + ' result(s)'}")
     else:
         finding = classify_miss(out, tpl, d)
         wid = f"{x['rid']}/{d}"
